@@ -138,6 +138,28 @@ CLAIMED = {
         "Trusted: Coq kernel; h5py's selection semantics for normalised tuples (exercised); negative window starts are outside the "
         "domain; text arrays and calibration are C01/C15.",
         "DESIGN.md section 5 C06", TECH),
+    "C01": (
+        "Coq theorems over the array model (shape, row-major cells as opaque bit patterns, element type): region assignment then "
+        "region read returns the values in order and leaves every other cell, the shape and the cell count alone; whole write then "
+        "read; the row-major enumeration lemma for every rank and shape (zero-length axes included); resize keeps surviving cells "
+        "and fills new ones; no operation changes the element type. Tie: histories (whole/region writes with C06's expressions, "
+        "append along every axis incl. mismatches, resize, reopen RO/RW) over 12 element types x 3 creation variants x random "
+        "file/block/array compression triples, with all cells compared bit-for-bit after every step, plus dtype, len, size, "
+        "read_direct, single-element reads and the stored dataset's compression filter.",
+        "Trusted: Coq kernel; h5py/libhdf5 (chunks, gzip, fill) exercised not proven; numpy casting not modelled (only values of the "
+        "array's own type are written); the NoDup/in-range hypotheses of the region theorem are not yet derived from in-bounds "
+        "selections (they are what the correspondence exercises).",
+        "DESIGN.md section 5 C01", TECH),
+    "C15": (
+        "Coq theorems over exact rationals: Horner evaluation (polyval) is c0 + c1 y + c2 y^2 + ...; every element of a calibrated "
+        "read is the polynomial of the corresponding raw element (after subtracting the origin); slicing and calibration commute "
+        "for every selection; without coefficients and with no/zero origin a read is the raw data. Tie: 9 numeric element types, "
+        "values on a dyadic grid where float64 Horner is exact, whole reads compared with the model and the polynomial "
+        "specification in Gallina, region/view/tagged reads compared with the whole read, raw h5py read of the dataset after "
+        "every set/clear step, result dtype.",
+        "Trusted: Coq kernel; IEEE rounding outside the dyadic grid not modelled; 'calibration never alters the raw values' is true "
+        "of the model by construction and only exercised.",
+        "DESIGN.md section 5 C15", TECH),
 }
 
 PENDING_REASON = ("check not built yet in this revision (work in progress: the property is meant to be decided by Coq "
